@@ -429,6 +429,9 @@ func alphabet(sp *spec) []string {
 		// option type with different values, no options at all
 		"RCRone", "RCRdup", "RCRdupx", "RCRempty",
 		"RCAcur", "RCAold", "RCAnc", "RCAnew", "RCAalt",
+		// RCAsup: the late, genuine Ack of an earlier request whose identifier the automaton re-used for a request
+		// with different content (applicable only if it ever does that)
+		"RCAsup",
 		"RCNcur", "RCNold", "RCNnc", "RCNnew",
 		"RCJcur", "RCJold", "RCJnc", "RCJnew",
 		"RTR", "RTA", "UNK", "CRJcrit", "CRJother",
@@ -439,6 +442,9 @@ func alphabet(sp *spec) []string {
 		// SPR = SendProtocolReject called by the server, SER = SendEchoRequest called directly,
 		// KA = one tick of the session keep-alive ticker (virtual time) which calls SendEchoRequest
 		a = append(a, "PRJlcp", "PRJother", "ECHO0", "ECHO3", "ECHO4", "ECHO8", "DISCARD", "SPR", "SER", "KA")
+		// RCRloop: the peer's Configure-Request carries the automaton's own magic number (looped-back link, RFC 1661
+		// section 6.4): the automaton Naks with a new number and changes the one it will send itself
+		a = append(a, "RCRloop")
 	}
 	if sp.proto == "IPCP" && sp.ipMode == "static" {
 		a = append(a, "SETIP")
@@ -456,7 +462,7 @@ func replyClass(kind string) (code byte, class string) {
 		return 0, ""
 	}
 	switch k[3:] {
-	case "cur", "old", "nc", "new", "alt", "peer":
+	case "cur", "old", "nc", "new", "alt", "peer", "sup":
 		return k[2], k[3:]
 	}
 	return 0, ""
@@ -710,6 +716,9 @@ func (c *caseCtx) concretise(kind string, r *rand.Rand) (p []byte, ok bool) {
 		switch code {
 		case 'A':
 			d := c.mon.ourData
+			if cls == "sup" { // the peer's genuine acknowledgement of a superseded request that carried the same identifier
+				d = c.mon.supData()
+			}
 			if cls == "alt" { // matching identifier, options altered (judged under the lenient reading: identifier match = acknowledgement)
 				d = append([]byte(nil), d...)
 				d[len(d)-1] ^= 0x5a
@@ -746,6 +755,16 @@ func (c *caseCtx) concretise(kind string, r *rand.Rand) (p []byte, ok bool) {
 		return mkPkt(cConfReq, byte(r.IntN(256)), encOpts(c.reqOpts(r, "rej"))), true
 	case "RCRmix":
 		return mkPkt(cConfReq, byte(r.IntN(256)), encOpts(c.reqOpts(r, "mix"))), true
+	case "RCRloop":
+		mine := c.ourOpt(5)
+		if mine == nil {
+			mine = u32(ourMagic)
+		}
+		os := []topt{{5, append([]byte(nil), mine...)}}
+		if r.IntN(2) == 0 {
+			os = append([]topt{{1, u16(1492)}}, os...)
+		}
+		return mkPkt(cConfReq, byte(r.IntN(256)), encOpts(os)), true
 	case "UNK":
 		// a code the automaton does not implement: LCP answers with a Code-Reject, which consumes one
 		// of its identifiers (12 = Identification, 13 = Time-Remaining, 14 = Reset-Request are real codes)
